@@ -39,11 +39,14 @@ def step (d : DS) (ws : List String) : DS × String :=
                      (if x.allowed then "1" else "0") ++ " " ++ toString x.remaining ++ " " ++ toString x.resetAt
         | .err => "err:redis")
     | _ => (d, "bad-op")
-  | ["!result", id, n, limit, allowed, remaining, resetAt] =>
+  | ["!result", id, n, limit, allowed, remaining, resetAt, before] =>
     -- oracle: the property itself, from the observed results only (no script model):
     -- Remaining = max(limit - everything requested so far in the window, 0); admitted units stay within the limit
-    match ints [n, limit, remaining, resetAt] with
-    | some [n, limit, remaining, resetAt] =>
+    match ints [n, limit, remaining, resetAt, before] with
+    | some [n, limit, remaining, resetAt, before] =>
+      -- `before` ≤ the caller's clock reading; the window a call is counted in never ended before it
+      -- (`Rv.C38.reset_at_not_in_past`)
+      if resetAt < before then (d, "violates:stale-window") else
       let w := (d.wins.find? (fun w => w.id == id && w.resetAt == resetAt)).getD { id := id, resetAt := resetAt }
       let req := w.requested + n
       let adm := if allowed == "1" ∧ n > 0 then w.admitted + n else w.admitted
